@@ -23,17 +23,15 @@ def enum_words(tier, seed):
             for s, t in XF.PAIRS_QUICK:
                 yield (dim, s, t, 4)
         else:
-            # thorough: the quick pairs one level deeper, and every pair of generators at depth 4
-            for s, t in XF.PAIRS_QUICK:
-                yield (dim, s, t, 5)
+            # thorough: every pair of generators; real pairs at depth 5, pairs with a complex generator (exact
+            # arithmetic over Q(i) is slow) at depth 4
             cplx = ("unitary", "cperm", "cshear")
             for s, t in [p for p in itertools.permutations(names, 2) if p[0] < p[1]] + [("det2@int", "shear@int"), ("detm3@int", "proj@int")]:
-                if (s, t) in XF.PAIRS_QUICK:
-                    continue
-                # complex generators (exact arithmetic over Q(i) is slow) are paired with two real ones each
-                if (s in cplx or t in cplx) and not ({s, t} & {"proj", "trans"}):
-                    continue
-                yield (dim, s, t, 4)
+                yield (dim, s, t, 4 if (s in cplx or t in cplx) else 5)
+            # well-conditioned quick pairs one level deeper still (the ill-conditioned projective ones would only
+            # exercise the tolerance scaling at depth 6)
+            for s, t in (("shear", "swap"), ("det2", "rot345"), ("trans", "rot345"), ("corner0", "trans"), ("det2@int", "detm3@int")):
+                yield (dim, s, t, 6)
 
 
 @family("C06", "word_bfs", enum_words)
@@ -93,6 +91,10 @@ def case_words(ctx, cfg):
                 return
             objs2 = []
             failed = False
+            # comparison tolerance follows the exact condition number of the word: 1e-9 for well-conditioned words
+            # (everything at depth <= 3), eps-level multiples of cond^2 for the ill-conditioned deep ones
+            cond = float(np.linalg.cond(XF.mat_np(M2).astype(complex)))
+            fw_tol = min(1e-5, max(1e-9, 1e-14 * cond * cond))
             for d, o_prev, o0, s0 in zip(descs, objs, objs0, st0):
                 want = XF.act(M2, s0)
                 kn = XF.kind_name(d)
@@ -102,7 +104,7 @@ def case_words(ctx, cfg):
                 r2, e2 = ctx.call(lambda: T2 * o0)
                 ctx.trace(2)
                 for tag, r, e_ in (("stepwise", r1, e1), ("composed", r2, e2)):
-                    bad = f"exception:{type(e_).__name__}" if e_ is not None else (XF.agrees(r, want) or (None if type(r) is type(o0) else "class"))
+                    bad = f"exception:{type(e_).__name__}" if e_ is not None else (XF.agrees(r, want, fw_tol) or (None if type(r) is type(o0) else "class"))
                     if bad:
                         ctx.fail(f"{tag}:{kn}:{bad.split(' at ')[0].split(' of ')[0].split(' ')[0]}", f"{tag} application", {**inputs, "object": d}, XF.state_json(want), e_ if e_ is not None else r.array)
                         failed = True
@@ -129,10 +131,17 @@ def case_words(ctx, cfg):
             if e is not None or not proj_eq(Ti.array, XF.mat_np(X.inv(M2))):
                 ctx.fail("inverse:of-word", "inverse", inputs, XF.mat_np(X.inv(M2)), e if e is not None else Ti.array)
                 return
+            # the round trip goes through floating point twice: its error is bounded by eps*cond(M)^2, so the
+            # comparison tolerance follows the exact condition number of the word (1e-8 for every word of depth <= 4)
+            rt_tol = max(1e-8, 1e-14 * cond * cond)
+            if rt_tol > 1e-4:
+                ctx.tally("roundtrip-skipped:ill-conditioned-word")
+                queue.append((w2, M2, objs2, T2))
+                continue
             for d, o2, s0 in zip(descs, objs2, st0):
                 r4, e4 = ctx.call(lambda: Ti * o2)
                 ctx.trace()
-                bad = "exception" if e4 is not None else XF.agrees(r4, s0, 1e-8)
+                bad = "exception" if e4 is not None else XF.agrees(r4, s0, rt_tol)
                 if bad:
                     ctx.fail(f"inverse-roundtrip:{XF.kind_name(d)}", "t.inverse()*(t*x)", {**inputs, "object": d}, XF.state_json(s0), e4 if e4 is not None else r4.array)
                     return
@@ -144,7 +153,9 @@ def case_words(ctx, cfg):
 
 
 def enum_pow(tier, seed):
-    K = 12 if tier == "quick" else 20
+    # |k| <= 12 in both tiers: the library evaluates t**k as ONE einsum over k operands without path optimisation,
+    # whose cost grows like (dim+1)**(k+1) -- k = 13 already takes minutes per call, k = 20 does not terminate
+    K = 12
     for dim in (2, 3):
         for g in XF.gens(dim):
             for k in range(-K, K + 1):
